@@ -150,6 +150,34 @@ fn execute<V: Variant, P: Peer>(plan: &Plan) -> (Option<(String, String)>, Stats
             }
         }
     }
+    // Byzantine signatures in the reference's own coefficient range: a triple whose s2 has a
+    // coefficient of magnitude 1024..2047 (the reference signer emits such coefficients about once
+    // in 10^6 signatures) and whose norm is within the bound. If the reference verifier accepts it,
+    // the verifier here must accept it too.
+    {
+        let ntt = crate::reference::field::Ntt::new(n);
+        let mut rng = Prng::new(plan.stream ^ 0x5a31);
+        for _ in 0..2 {
+            let target = p.bound - 1 - rng.below(p.bound as u64 / 3) as i64;
+            if let Some(tr) = crate::byz::exact_norm_triple_shape(p, &ntt, &mut rng, target, false, None, 3) {
+                st.evaluations += 1;
+                let ref_frame = pq::to_reference(&tr.sig, P::SIG_HEADER);
+                let ok_ref = P::verify(&tr.msg, &ref_frame, &tr.pk);
+                let ok_here = crate::guard::guarded(|| match (V::sig_from_bytes(&tr.sig), V::pk_from_bytes(&tr.pk)) {
+                    (Ok(s), Ok(k)) => V::verify(&tr.msg, &s, &k),
+                    _ => false,
+                });
+                st.inc(if ok_ref { "crafted.reference_accepts" } else { "crafted.reference_rejects" });
+                if ok_ref && ok_here != Ok(true) {
+                    return fail(
+                        st,
+                        format!("verify{} here rejects a signature the reference verifier accepts (crafted, one coefficient of magnitude 1024..2047)", n),
+                        format!("{}; here: {:?}", tr.note, ok_here),
+                    );
+                }
+            }
+        }
+    }
     (None, st)
 }
 
@@ -177,6 +205,12 @@ fn minimise(plan: &Plan, class: &str) -> Plan {
     plan.clone()
 }
 
+/// key seeds whose generation takes a rare branch (a candidate rejected because F or G does
+/// not fit eight bits): shared with C05 (corpus/C05/seeds.txt)
+fn pinned() -> Vec<(usize, u64)> {
+    crate::props::c05::pinned()
+}
+
 fn sizes(tier: Tier) -> (u64, u64, usize) {
     match tier {
         Tier::Quick => (48u64, 12u64, 60usize),
@@ -185,21 +219,32 @@ fn sizes(tier: Tier) -> (u64, u64, usize) {
 }
 
 fn dispatch(tier: Tier, seed: u64, run: u64) -> RunOutcome {
-    let (_r512, r1024, nmsg) = sizes(tier);
+    let (r512, r1024, nmsg) = sizes(tier);
     let mut rng = Prng::new(report::run_seed(seed, PROP, run));
-    let n = if run < r1024 { 1024 } else { 512 };
-    let plan = Plan {
-        n,
-        our_seed: rng.seed32(),
-        peer_seed: rng.next_u64(),
-        msgs: (0..if n == 1024 { nmsg / 2 } else { nmsg }).map(|_| world::message(&mut rng)).collect(),
-        stream: rng.next_u64(),
+    let pins = pinned();
+    let plan = if run >= r512 + r1024 {
+        // pinned rare-branch key seeds: key exchange and a few messages
+        let (n, c) = pins[(run - r512 - r1024) as usize % pins.len().max(1)];
+        Plan { n, our_seed: crate::rng::counter_seed(c), peer_seed: rng.next_u64(), msgs: (0..3).map(|_| world::message(&mut rng)).collect(), stream: rng.next_u64() }
+    } else {
+        let n = if run < r1024 { 1024 } else { 512 };
+        Plan {
+            n,
+            our_seed: rng.seed32(),
+            peer_seed: rng.next_u64(),
+            msgs: (0..if n == 1024 { nmsg / 2 } else { nmsg }).map(|_| world::message(&mut rng)).collect(),
+            stream: rng.next_u64(),
+        }
     };
+    let n = plan.n;
     let (class, st) = execute_dyn(&plan);
     let mut out = RunOutcome::default();
     out.stats = st;
     out.stats.inc("runs");
     out.stats.inc(&format!("variant.{}", n));
+    if run >= r512 + r1024 {
+        out.stats.inc("pinned_rare_branch_key_seeds");
+    }
     if run == 0 || run == r1024 {
         out.stats.sample(json!({"n": n, "our_seed_hex": hex(&plan.our_seed), "peer_seed": plan.peer_seed, "messages": plan.msgs.len(), "first_message_lengths": plan.msgs.iter().take(8).map(|m| m.len()).collect::<Vec<_>>()}));
     }
@@ -212,7 +257,7 @@ fn dispatch(tier: Tier, seed: u64, run: u64) -> RunOutcome {
 
 pub fn runner(tier: Tier, seed: u64) -> Option<(u64, Box<dyn Fn(u64) -> RunOutcome + Sync>)> {
     let (r512, r1024, _) = sizes(tier);
-    Some((r512 + r1024, Box::new(move |run| dispatch(tier, seed, run))))
+    Some((r512 + r1024 + pinned().len() as u64, Box::new(move |run| dispatch(tier, seed, run))))
 }
 
 pub fn rerun(tier: Tier, seed: u64, run: u64) -> Option<RunOutcome> {
@@ -228,9 +273,9 @@ pub fn check(tier: Tier, seed: u64) -> i32 {
     let mut rep = Report::new(PROP, tier, seed);
     let w = report::workers();
     let (r512, r1024, _nmsg) = sizes(tier);
-    let out = report::parallel_runs(r512 + r1024, w, |run| dispatch(tier, seed, run));
+    let out = report::parallel_runs(r512 + r1024 + pinned().len() as u64, w, |run| dispatch(tier, seed, run));
     rep.absorb(out);
-    rep.rule = "a case is one signature exchange: for a falcon-rust key pair (from a seed) and a reference key pair (PQClean keygen with simulator-seeded randombytes), each message is signed in all four (signer, key-origin) combinations, with keys crossing as bytes, and every signature is checked by both verifiers after re-framing (header 0x50|logn <-> 0x30|logn, zero padding stripped / added); before that, key bytes are imported and re-exported on this side and the public key is re-derived from the imported secret key; all exchanges are non-trivial; distinct = distinct signature bytes".into();
+    rep.rule = "a case is one signature exchange: for a falcon-rust key pair (from a fresh seed, or from one of the pinned seeds whose key generation takes a rare branch) and a reference key pair (PQClean keygen with simulator-seeded randombytes), each message is signed in all four (signer, key-origin) combinations, with keys crossing as bytes, and every signature is checked by both verifiers after re-framing (header 0x50|logn <-> 0x30|logn, zero padding stripped / added); before that, key bytes are imported and re-exported on this side and the public key is re-derived from the imported secret key; all exchanges are non-trivial; distinct = distinct signature bytes".into();
     rep.assumptions = vec![
         "PQClean (pqcrypto-falcon 0.3.0) is the reference on honest traffic; no faults are injected here (a damaged exchange promises nothing)".into(),
         "reference signatures whose compressed part exceeds this library's fixed frame cannot be re-framed and are counted as skipped".into(),
